@@ -3,6 +3,7 @@
 //vp:roots ./model/histogram ./model/value
 //vp:budget wall_s_thorough=3000
 //vp:thorough-only vpH_C11_hist_roundtrip
+//vp:bounds (quick: vpH_C11_fhist_wiring is the FloatHistogramChunk twin with bucket counts 0/1 by case split)
 //vp:bounds (quick: vpH_C11_hist_wiring) the same round trip with both sides populated: positive layouts a, b as enumerated, chunk-side positive counts symbolic in [0,2), new-side counts 2; negative side one of {absent, same layout, grows forward, drops an empty bucket (backward insert)}; concrete timestamps 10, 20
 //vp:bounds histogram chunk round trip through the public API (NewHistogramChunk, Appender, AppendHistogram incl. recode / recodeHistogram / new chunk on counter reset, Iterator.Next/AtHistogram): 2 integer histograms with positive-side layouts a, b of up to 2 spans each enumerated as in the reconciliation harness (quick bounds), bucket counts symbolic in [0,3), count and zero count concrete, timestamps t1 in [0,64), t2-t1 in [1,64), schema 0, equal zero threshold, sums 1.0 and 2.0
 //vp:assume small value ranges pin every varbit field to its first classes (the bit-stream coders over their full range are decided under C10); histograms are valid (counts non-negative)
@@ -223,6 +224,113 @@ func vpH_C11_hist_wiring() {
 			ts, g := it.AtHistogram(nil)
 			vpAssert(ts == int64(10*(k+1)), "timestamp")
 			vpAssert(g.Count == []uint64{5, 9}[k] && g.ZeroCount == 1, "count and zero count")
+			check("positive side", g.PositiveSpans, g.PositiveBuckets, wantsP[k])
+			check("negative side", g.NegativeSpans, g.NegativeBuckets, wantsN[k])
+			k++
+		}
+		vpAssert(it.Err() == nil, "no iterator error")
+	}
+	vpAssert(k == 2, "both histograms are read back")
+	vpReach("end")
+}
+
+// Float-histogram twin of the wiring check (FloatHistogramChunk, counts 0/1 by case split): both sides of the histogram go through reconciliation, recode of the chunk and
+// recode of the appended histogram; what is read back is what was appended, per bucket index, on each side.
+func vpH_C11_fhist_wiring() {
+	aSp, aIdx := vpXLayout("a")
+	bSp, bIdx := vpXLayout("b")
+	var aAbs, bAbs []float64
+	for range aIdx {
+		aAbs = append(aAbs, float64(vpShape("count", 0, 1)))
+	}
+	for range bIdx {
+		bAbs = append(bAbs, 2)
+	}
+	type side struct {
+		sp  []histogram.Span
+		idx []int
+		abs []float64
+	}
+	mk := func(idx []int, abs []float64) side {
+		var sp []histogram.Span
+		last := 0
+		for k, i := range idx {
+			if k > 0 && i == last+1 {
+				sp[len(sp)-1].Length++
+			} else {
+				off := i - last
+				if k > 0 {
+					off = i - last - 1
+				}
+				sp = append(sp, histogram.Span{Offset: int32(off), Length: 1})
+			}
+			last = i
+		}
+		return side{sp, idx, abs}
+	}
+	var n1, n2 side
+	switch vpShape("negative", 0, 3) {
+	case 1:
+		n1, n2 = mk([]int{0, 1}, []float64{1, 1}), mk([]int{0, 1}, []float64{3, 3})
+	case 2:
+		n1, n2 = mk([]int{0}, []float64{1}), mk([]int{0, 1}, []float64{3, 3})
+	case 3:
+		n1, n2 = mk([]int{0, 2}, []float64{1, 0}), mk([]int{0}, []float64{3})
+	}
+	h1 := &histogram.FloatHistogram{Schema: 0, ZeroThreshold: 0.001, ZeroCount: 1, Count: 5, Sum: 1, PositiveSpans: aSp, PositiveBuckets: aAbs, NegativeSpans: n1.sp, NegativeBuckets: n1.abs}
+	h2 := &histogram.FloatHistogram{Schema: 0, ZeroThreshold: 0.001, ZeroCount: 1, Count: 9, Sum: 2, PositiveSpans: bSp, PositiveBuckets: bAbs, NegativeSpans: n2.sp, NegativeBuckets: n2.abs}
+	c := Chunk(NewFloatHistogramChunk())
+	app, err := c.Appender()
+	if err != nil {
+		panic(err)
+	}
+	nc, _, app, err := app.AppendFloatHistogram(nil, 0, 10, h1.Copy(), false)
+	vpAssert(err == nil && nc == nil, "first append stays in the chunk")
+	chunksOut := []Chunk{c}
+	nc, recoded, _, err := app.AppendFloatHistogram(nil, 0, 20, h2.Copy(), false)
+	vpAssert(err == nil, "second append succeeds")
+	vpObserve("newchunk", nc != nil)
+	vpObserve("recoded", recoded)
+	if nc != nil {
+		if recoded {
+			chunksOut = []Chunk{nc}
+		} else {
+			chunksOut = append(chunksOut, nc)
+		}
+	}
+	check := func(label string, gsp []histogram.Span, gAbs []float64, w side) {
+		gIdx := vpXSpanIdxs(gsp)
+		vpAssert(len(gIdx) == len(gAbs), label+": spans match buckets")
+		if len(gIdx) != len(gAbs) {
+			return
+		}
+		for i, idx := range w.idx {
+			j := vpXIndexOf(gIdx, idx)
+			if j < 0 {
+				vpAssert(w.abs[i] == 0, label+": only empty buckets may be dropped from the layout")
+			} else {
+				vpAssert(gAbs[j] == w.abs[i], label+": bucket count read back as appended")
+			}
+		}
+		for j, idx := range gIdx {
+			if vpXIndexOf(w.idx, idx) < 0 {
+				vpAssert(gAbs[j] == 0, label+": buckets added by the chunk layout are empty")
+			}
+		}
+	}
+	wantsP := []side{{aSp, aIdx, aAbs}, {bSp, bIdx, bAbs}}
+	wantsN := []side{n1, n2}
+	k := 0
+	for _, ch := range chunksOut {
+		it := ch.Iterator(nil)
+		for it.Next() == ValFloatHistogram {
+			vpAssert(k < 2, "no extra samples")
+			if k >= 2 {
+				return
+			}
+			ts, g := it.AtFloatHistogram(nil)
+			vpAssert(ts == int64(10*(k+1)), "timestamp")
+			vpAssert(g.Count == []float64{5, 9}[k] && g.ZeroCount == 1, "count and zero count")
 			check("positive side", g.PositiveSpans, g.PositiveBuckets, wantsP[k])
 			check("negative side", g.NegativeSpans, g.NegativeBuckets, wantsN[k])
 			k++
